@@ -105,7 +105,13 @@ func (e *env) delays() {
 			if when == exact/time.Second*time.Second && when != exact && 2*exact >= life && exact < life {
 				sig = sigTrunc
 			}
-			r.Fail(c, sig, fmt.Sprintf("lifetime %v: renewal scheduled after %v, not in [%v, %v)", life, when, life/2, life))
+			// the result record keeps 50 failures: do not let the thousands of known ones crowd out an unknown one
+			nKnown := r.Distribution["oracle-fail:"+sigTrunc]
+			if sig == "" || nKnown < 3 || l == 1000 || l == 2500 {
+				r.Fail(c, sig, fmt.Sprintf("lifetime %v: renewal scheduled after %v, not in [%v, %v)", life, when, life/2, life))
+			} else {
+				r.Hit("oracle-fail:" + sigTrunc)
+			}
 			if sig != "" && (l == 1000 || l == 2500) {
 				if !confirmed {
 					r.Confirm(sigTrunc, fmt.Sprintf("scheduleRenewal(lifetime %v) waits %v", life, when))
